@@ -253,7 +253,9 @@ func main() {
 					for _, kind := range []string{"EOF", "error", "error-with-last-bytes"} {
 						for _, bufSize := range []int{0, 16} {
 							name, data, cut, kind, bufSize := name, data, cut, kind, bufSize
-							t.Do(func() string { return fmt.Sprintf("Upgrader request{%s} cut=%d/%d end=%s readbuf=%d", name, cut, len(data), kind, bufSize) }, func() *explore.Fail {
+							t.Do(func() string {
+								return fmt.Sprintf("Upgrader request{%s} cut=%d/%d end=%s readbuf=%d", name, cut, len(data), kind, bufSize)
+							}, func() *explore.Fail {
 								src := env.NewSrc(data)
 								src.Cut = cut
 								if kind != "EOF" {
@@ -290,7 +292,9 @@ func main() {
 					for _, kind := range []string{"EOF", "error", "error-with-last-bytes"} {
 						for _, rb := range []int{0, 1} {
 							rs, cut, kind, rb := rs, cut, kind, rb
-							t.Do(func() string { return fmt.Sprintf("Dialer response{%s} cut=%d/%d end=%s readbuf#%d", rs, cut, len(probe), kind, rb) }, func() *explore.Fail {
+							t.Do(func() string {
+								return fmt.Sprintf("Dialer response{%s} cut=%d/%d end=%s readbuf#%d", rs, cut, len(probe), kind, rb)
+							}, func() *explore.Fail {
 								cc := hs.DialCfg{1, 1, rb, 0, 0}
 								d := cc.Dialer()
 								conn := &hs.LazyConn{}
@@ -317,6 +321,73 @@ func main() {
 				}
 			}
 			t.Note("5 request and 5 response shapes x every cut offset x {EOF, error, error with last bytes} x 2 read buffer sizes")
+		})
+
+		// The transport fails while the handshake is being *written* (request or response longer
+		// than the write buffer, so several writes; the k-th one fails, having taken nothing, a part
+		// or - reporting the error all the same - everything): the handshake is reported as failed,
+		// whatever the peer, who may have answered early, has sent.
+		r.Part("E2b-handshake-writes-that-fail", func(t *explore.T) {
+			theURL, _ := url.ParseRequestURI("ws://example.com/chat")
+			long := ws.HandshakeHeaderString("X-Long-A: " + strings.Repeat("a", 90) + "\r\nX-Long-B: " + strings.Repeat("b", 90) + "\r\n")
+			for _, wb := range []int{0, 64} {
+				for k := 0; k < 8; k++ {
+					for _, taken := range []string{"nothing", "half", "all-but-error"} {
+						for _, eager := range []bool{false, true} {
+							wb, k, taken, eager := wb, k, taken, eager
+							t.Do(func() string {
+								return fmt.Sprintf("Dialer.Upgrade write buffer %d: write #%d to the connection fails having taken %s; peer answers 101 early=%v", wb, k, taken, eager)
+							}, func() *explore.Fail {
+								d := ws.Dialer{WriteBufferSize: wb, Header: long, Protocols: []string{"a"}}
+								conn := &failWriteConn{failAt: k, taken: taken}
+								conn.Respond = func(req []byte) []byte {
+									if !eager && conn.failed {
+										return nil
+									}
+									return []byte("HTTP/1.1 101 Switching Protocols\r\nUpgrade: websocket\r\nConnection: Upgrade\r\nSec-WebSocket-Accept: " + hs.Accept(hs.KeyOf(conn.attempted.Bytes())) + "\r\n\r\n")
+								}
+								_, _, err := d.Upgrade(conn, theURL)
+								if !conn.failed {
+									if err != nil {
+										return explore.Failf("harness-clean-dial-fails", "%v", err)
+									}
+									t.Outcome("no-such-write")
+									return nil
+								}
+								if err == nil {
+									return explore.Failf("dial-succeeds-although-a-request-write-failed", "write #%d failed (%s taken), Upgrade returned nil", k, taken)
+								}
+								t.Outcome("request-write-failure-reported")
+								return nil
+							})
+						}
+						wb, k, taken := wb, k, taken
+						t.Do(func() string {
+							return fmt.Sprintf("Upgrader.Upgrade write buffer %d: write #%d of the response fails having taken %s", wb, k, taken)
+						}, func() *explore.Fail {
+							u := ws.Upgrader{WriteBufferSize: wb, Header: long, Protocol: func([]byte) bool { return true }}
+							req := make(hs.Req, len(hs.ReqFields)).Build()
+							dst := &failDst{failAt: k, taken: taken}
+							_, err := u.Upgrade(struct {
+								io.Reader
+								io.Writer
+							}{bytes.NewReader(req), dst})
+							if !dst.failed {
+								if err != nil {
+									return explore.Failf("harness-clean-upgrade-fails", "%v", err)
+								}
+								t.Outcome("no-such-write")
+								return nil
+							}
+							if err == nil {
+								return explore.Failf("upgrade-succeeds-although-a-response-write-failed", "write #%d failed (%s taken), Upgrade returned nil", k, taken)
+							}
+							t.Outcome("response-write-failure-reported")
+							return nil
+						})
+					}
+				}
+			}
 		})
 
 		r.Part("E3-write-side-every-failing-call", func(t *explore.T) {
@@ -352,7 +423,9 @@ func main() {
 						for j := 0; j < len(d0.Calls); j++ {
 							for _, partial := range []int{0, 1} {
 								j, partial := j, partial
-								t.Do(func() string { return histDesc(c, S, hh) + fmt.Sprintf(" | dest call %d fails after %d byte(s)", j, partial) }, func() *explore.Fail {
+								t.Do(func() string {
+									return histDesc(c, S, hh) + fmt.Sprintf(" | dest call %d fails after %d byte(s)", j, partial)
+								}, func() *explore.Fail {
 									d := env.NewDst()
 									d.FailAt, d.Partial = j, partial
 									w, _ := wops.Build(c, d)
@@ -441,6 +514,69 @@ func (c *cutConn) Read(p []byte) (int, error) {
 		c.LazyConn.Src.WithLast = c.kind == "error-with-last-bytes"
 	}
 	return c.LazyConn.Read(p)
+}
+
+// failDst is a destination whose failAt-th Write fails, having taken nothing, half, or all of
+// the bytes (and reporting an error all the same).
+type failDst struct {
+	failAt int
+	taken  string
+	calls  int
+	failed bool
+	got    bytes.Buffer
+}
+
+func (f *failDst) Write(p []byte) (int, error) {
+	if f.failed {
+		return 0, env.ErrInjected
+	}
+	f.calls++
+	if f.calls-1 == f.failAt {
+		f.failed = true
+		n := 0
+		switch f.taken {
+		case "half":
+			n = len(p) / 2
+		case "all-but-error":
+			n = len(p)
+		}
+		f.got.Write(p[:n])
+		return n, env.ErrInjected
+	}
+	f.got.Write(p)
+	return len(p), nil
+}
+
+// failWriteConn is a client connection whose failAt-th Write fails; the peer sees (and may answer)
+// whatever was attempted.
+type failWriteConn struct {
+	hs.LazyConn
+	failAt    int
+	taken     string
+	calls     int
+	failed    bool
+	attempted bytes.Buffer
+}
+
+func (c *failWriteConn) Write(p []byte) (int, error) {
+	c.attempted.Write(p)
+	if c.failed {
+		return 0, env.ErrInjected
+	}
+	c.calls++
+	if c.calls-1 == c.failAt {
+		c.failed = true
+		n := 0
+		switch c.taken {
+		case "half":
+			n = len(p) / 2
+		case "all-but-error":
+			n = len(p)
+		}
+		c.LazyConn.Write(p[:n])
+		return n, env.ErrInjected
+	}
+	return c.LazyConn.Write(p)
 }
 
 func dialCut(d ws.Dialer, conn *hs.LazyConn, u *url.URL, cut int, kind string, _ **env.Src) (*bufio.Reader, ws.Handshake, error) {
